@@ -123,6 +123,91 @@ fn c17_add_merkle_leaf_all_splits() {
     println!("VERIF-B unit=merkle test=c17_add_merkle_leaf_all_splits evaluations={evals} nontrivial={nontrivial} exhaustive=true domain=payload of {n} bytes x every {} split x fixed_size in {{None,2,3,5}} x large_size in {{false,true}}; violations={viol}", if thorough { "2/3/4-way" } else { "2/3-way" });
 }
 
+// the statement's own quantifier: leaf sizes 1 KB and 64 KB (set through the real set_fixed_size), first chunks of 0..=32 bytes,
+// second cuts around every header / leaf boundary, and deterministic pseudo-random multi-way splits
+#[test]
+fn c17_add_merkle_leaf_kb_leaf_sizes() {
+    let thorough = std::env::var("VERIF_B_TIER").map(|t| t == "thorough").unwrap_or(false);
+    let mut evals = 0usize;
+    let mut nontrivial = 0usize;
+    let mut viol = 0usize;
+    let mut shown: std::collections::BTreeMap<String, usize> = std::collections::BTreeMap::new();
+    let mut report = |why: String, desc: String, large: bool, first: usize, viol: &mut usize| {
+        *viol += 1;
+        let key = if why == "panic" {
+            "add_merkle_leaf.panic".to_string()
+        } else if !large && first <= 8 {
+            "add_merkle_leaf.header_skip.first_chunk_1to8".to_string()
+        } else {
+            "add_merkle_leaf.fed_bytes".to_string()
+        };
+        let cnt = shown.entry(key.clone()).or_insert(0);
+        *cnt += 1;
+        if *cnt <= 5 {
+            println!("VERIF-B-VIOLATION key={key} input={desc}: {why}");
+        }
+    };
+    for kb in [1usize, 64] {
+        let mut probe = MerkleAccumulator::default();
+        probe.set_fixed_size(kb);
+        let fixed = probe.fixed_size;
+        let fs = fixed.unwrap_or(0);
+        let n = 2 * fs + 700 + 8;
+        let payload: Vec<u8> = (0..n).map(|i| (i as u32).wrapping_mul(2654435761).to_be_bytes()[0]).collect();
+        for large in [false, true] {
+            let hdr = if large { 0 } else { 8 };
+            let mut seconds: Vec<usize> = Vec::new();
+            for base in [hdr, hdr + fs, hdr + 2 * fs] {
+                for d in [-2i64, -1, 0, 1, 2] {
+                    let v = base as i64 + d;
+                    if v >= 0 && (v as usize) <= n {
+                        seconds.push(v as usize);
+                    }
+                }
+            }
+            seconds.push(n);
+            for a in 0..=32usize {
+                let mut bs: Vec<usize> = seconds.iter().copied().filter(|b| *b >= a).collect();
+                if kb == 1 || thorough {
+                    bs.extend(a..=a + 32);
+                }
+                for b in bs {
+                    evals += 1;
+                    if a > 0 {
+                        nontrivial += 1;
+                    }
+                    if let Err(why) = c17_contract(&payload, &[a, b], fixed, large) {
+                        let first = if a > 0 { a } else if b > 0 { b } else { n };
+                        report(why, format!("leaf={kb}KB payload={n} bytes cuts=[{a},{b}] large={large}"), large, first, &mut viol);
+                    }
+                }
+            }
+            // pseudo-random multi-way splits (fixed LCG, so every run explores the same set)
+            let rounds = if kb == 1 { if thorough { 2000 } else { 300 } } else if thorough { 200 } else { 30 };
+            let mut st: u64 = 0x9E3779B97F4A7C15 ^ (kb as u64) ^ ((large as u64) << 7);
+            for _ in 0..rounds {
+                let mut cuts: Vec<usize> = Vec::new();
+                let ways = 2 + (st >> 60) as usize % 6;
+                for _ in 0..ways {
+                    st = st.wrapping_mul(6364136223846793005).wrapping_add(1442695040888963407);
+                    // half of the cuts land in the first 40 bytes, where the header logic lives
+                    let c = if (st >> 33) & 1 == 0 { (st >> 40) as usize % 41 } else { (st >> 20) as usize % (n + 1) };
+                    cuts.push(c);
+                }
+                cuts.sort();
+                evals += 1;
+                nontrivial += 1;
+                if let Err(why) = c17_contract(&payload, &cuts, fixed, large) {
+                    let first = cuts.iter().copied().find(|c| *c > 0).unwrap_or(n);
+                    report(why, format!("leaf={kb}KB payload={n} bytes cuts={cuts:?} large={large}"), large, first, &mut viol);
+                }
+            }
+        }
+    }
+    println!("VERIF-B-SAMPLE leaf=1KB cuts=[3,1032] large=false: leaves and remainder equal the digests of payload[8..] cut every 1024 bytes");
+    println!("VERIF-B unit=merkle test=c17_add_merkle_leaf_kb_leaf_sizes evaluations={evals} nontrivial={nontrivial} exhaustive=false domain=leaf sizes 1 KB and 64 KB via set_fixed_size x large_size in {{false,true}} x first cut 0..=32 x second cut around header and leaf boundaries (1 KB: also first cut + 0..=32) + fixed-seed random 2..7-way splits; violations={viol}");
+}
+
 // ---------------------------------------------------------------- C16 native replay / differential driver
 // every leaf count n <= N, every leaf index, every stored row: the real generate/prove/check functions agree
 #[test]
